@@ -148,7 +148,7 @@ def job_tree(res, rng, w, home, job):
         if n["kind"] != "symlink":
             n["mode"] = rng.randrange(0, 0o10000) | (0o700 if n["kind"] == "dir" else 0)
             n["owner"] = (rng.choice([0, 1, 2, 1000, 65534, 4242, 31337]), rng.choice([0, 1, 5, 1000, 65534, 777, 31337]))
-        n["mtime"] = base + rng.randrange(0, 200_000_000)
+        n["mtime"] = base + rng.randrange(0, 200_000_000) + rng.choice([0, 0.25, 0.5, 0.999999])
     for rf in tree.materialise(root, nodes):
         res.inc("refused: %s" % (rf,))
     snap = tree.snapshot(root)
